@@ -408,7 +408,11 @@ def cte_query(rng):
     src = r.choice(['t1', 't2', 't3'])
     body = f'SELECT s.id AS id, s.{"a" if src != "t3" else "x"} AS v FROM {qual_multi(src)} AS s WHERE s.id {r.choice(["<", ">", "!="])} {r.choice([2, 3, 4])}'
     other = r.choice(['t1', 't2', 't3'])
-    k = r.choice(['join', 'in-sub', 'union', 'plain'])
+    k = r.choice(['join', 'in-sub', 'union', 'plain', 'cte-in-sub', 'cte-in-sub'])
+    if k == 'cte-in-sub':
+        # the main table is a real one, the CTE (often of another integration) is read by a sub-query of the WHERE clause
+        return (f'WITH {name} AS ({body}) SELECT o.id AS oid FROM {qual_multi(other)} AS o WHERE '
+                f'{r.choice(["", "o.id > 0 AND "])}o.id IN (SELECT c.id FROM {name} AS c{r.choice(["", " WHERE c.v IS NOT NULL"])})')
     if k == 'join':
         return f'WITH {name} AS ({body}) SELECT c.id AS cid, c.v AS cv, o.id AS oid FROM {name} AS c {r.choice(["JOIN", "LEFT JOIN"])} {qual_multi(other)} AS o ON c.id = o.id'
     if k == 'in-sub':
